@@ -390,7 +390,11 @@ def main(chk):
              runs=stats["runs"], traces_rejected=len(rej), trace_states=tstates, situation_counts=cats,
              legacy_model_violates=legacy_model, clause_a=ca["graphs"], evaluations=stats["runs"] + ca["steps"],
              distinct_nontrivial=nontriv, samples=samples, wall_runs_s=round(t_runs, 1), wall_trace_tlc_s=round(t_tlc, 1),
-             wall_clause_a_s=round(t_a, 1), exhaustive=True, partial=("a" not in parts or "b" not in parts or stride > 1),
+             wall_clause_a_s=round(t_a, 1), exhaustive=True,
+             exhaustive_scope="every program of the grammar with <= %d ops on an idle pool x every suspension point (and the whole bounded "
+                              "model in TLC); other pool states, timeout mode, effect-before-suspension: all programs <= %d ops%s"
+                              % (4 if chk.quick else 5, 3 if chk.quick else 4, " or seeded samples" if chk.quick else ""),
+             partial=("a" not in parts or "b" not in parts or stride > 1),
              rule="one trace per (program of the grammar, pool state, cancel|timeout, effect-before/after-suspension, suspension k); "
                   "non-trivial = the cancellation was delivered while a driver call on the program's connection was in flight, while "
                   "a shielded close task was running or while the task awaited something else with the connection checked out; clause (a): every edge of the ConnTxn graphs replayed through AsyncConnection, "
